@@ -34,7 +34,8 @@ def outside_stream(ctx, binary, test, tag, n):
 
 
 def run(ctx):
-    ctx.lean_obligations(["SV.Props.C20"], drivers=["svdriver_c20"])
+    ctx.regen_go2lean()
+    ctx.lean_obligations(["SV.Props.C20", "SV.Props.C20gen2"], drivers=["svdriver_c20"])
     quick = ctx.tier == "quick"
     bsrc = ctx.go_test_binary("fs/source", "h_source")      # exported identifiers only
     bsvc = ctx.go_test_binary("service", "h_service")        # in-package (2 unexported readers) + exported-API mount harness
